@@ -1042,13 +1042,14 @@ func paddingLengthFromHasher(c *Ctx, rule string) {
 	p := c.P
 	fn := p.MustFunc("protocol", "ToBalloonProof")
 	n := 0
-	eachInstr(fn, func(in ssa.Instruction) {
+	rgP := p.RegionOf(fn, 2)
+	rgP.Instrs(func(site regionSite, in ssa.Instruction) {
 		cc := callCommon(in)
 		if cc == nil || cc.StaticCallee() == nil || cc.StaticCallee().Name() != "Uint64AsPaddedBytes" || len(cc.Args) != 2 {
 			return
 		}
 		n++
-		l := p.TermOf(cc.Args[1])
+		l := rgP.Term(site, cc.Args[1])
 		fromAnswer := l.Has(func(x *Term) bool { return x.Op == "field" && x.Args[0].IsParam(fn, 0) })
 		fromHasher := l.Has(func(x *Term) bool { return x.Op == "invoke" && x.Name == "Len" })
 		c.Check(fromHasher && !fromAnswer, rule, funcName(fn)+":padding-length", in.Pos(), "padding length = hasher.Len()", "the version is padded to "+l.String()+", a length taken from the answer: a short KeyDigest makes Uint64AsPaddedBytes slice with a negative bound and the client panics while decoding the answer")
